@@ -285,10 +285,14 @@ main (int argc, char **argv)
     }
   vh_stat ("slab_c_done", 1);
   for (int which = 0; which < 6 && !vh_expired (); which++)
-    for (int len = 250; len <= 400; len++)
-      for (int term = 0; term < 3; term++)
-        if (vh_mine (idx++))
-          slab_e (which, len, term);
+    {
+      /* quick: the band around each method's own limit (result length 384 - 45 .. 384 + 10); thorough: 250..400 */
+      static const int lo[] = { 335, 325, 300, 275, 250, 250 }, hi[] = { 372, 362, 345, 345, 256, 256 };
+      for (int len = vh_thorough ? 250 : lo[which]; len <= (vh_thorough ? 400 : hi[which]); len++)
+        for (int term = 0; term < 3; term++)
+          if (vh_mine (idx++))
+            slab_e (which, len, term);
+    }
   vh_stat ("slab_e_done", 1);
   if (mode_c06)
     for (int m = 0; m < M_COUNT && !vh_expired (); m++)
